@@ -192,3 +192,42 @@ def unsaturated_exp(term, bounded_names=(), res=None):
             if not sat:
                 out.append(n)
     return out
+
+
+# J6  integer-dtype hazards: places where a legal integer-typed input silently turns float arithmetic into integer arithmetic
+FLOAT_DTYPES = {"float", "float64", "float32", "double", "complex", "complex128", "'float'", "'float64'", "'f8'", "longdouble"}
+LIKE_FUNCS = {"zeros_like", "empty_like", "ones_like", "full_like"}
+
+
+def integer_dtype_hazards(fn):
+    """[(lineno, text, why)]:
+       * numpy.reciprocal(x): keeps x's dtype, so an integer array gives integer division (1/2 -> 0);
+       * a conversion whose dtype is copied from another array (`asarray(q, dtype=self.x.dtype)`, `q.astype(x.dtype)`): a float
+         value is truncated when that array happens to be integer-typed;
+       * zeros_like / empty_like / ones_like / full_like(x) without an explicit floating dtype: the result inherits an integer
+         dtype and later float stores are truncated."""
+    out = []
+    for n in ast.walk(fn):
+        if not isinstance(n, ast.Call):
+            continue
+        f = n.func
+        name = f.id if isinstance(f, ast.Name) else f.attr if isinstance(f, ast.Attribute) else None
+        if name == "reciprocal":
+            out.append((n.lineno, ast.unparse(n)[:120], "numpy.reciprocal keeps an integer dtype: reciprocal([2, 3]) is [0, 0]"))
+            continue
+        dt = None
+        for k in n.keywords:
+            if k.arg == "dtype":
+                dt = k.value
+        if name == "astype" and n.args:
+            dt = n.args[0]
+        if name in ("array", "asarray", "asanyarray", "zeros", "ones", "empty", "full") and len(n.args) >= 2 and dt is None and name in ("array", "asarray", "asanyarray"):
+            dt = n.args[1]
+        if dt is not None and any(isinstance(x, ast.Attribute) and x.attr == "dtype" for x in ast.walk(dt)):
+            out.append((n.lineno, ast.unparse(n)[:120], "the target dtype is copied from another array: a float value is truncated "
+                                                        "whenever that array is integer-typed"))
+            continue
+        if name in LIKE_FUNCS and (dt is None or ast.unparse(dt) not in FLOAT_DTYPES):
+            out.append((n.lineno, ast.unparse(n)[:120], f"{name} inherits the dtype of its argument; with an integer-typed argument "
+                                                        f"later float stores are truncated"))
+    return out
